@@ -339,7 +339,7 @@ def make_flag_evaluator(ctx, f, rd, node):
             # only if they are rebound between; the function is straight-line before the dict)
             return defs[0].value
         return None
-    return BoolEval(atom_of, resolve_name)
+    return BoolEval(atom_of, resolve_name, host=f)
 
 
 def r6_summary_flags(ctx, rule='C02.R6'):
